@@ -360,7 +360,96 @@ class T41(T39):
   MODS = ('time', 'gevent')
 
 
-TS = {'T41': T41, 'T33': T33, 'T39': T39, 'T40': T40, 'T17': T17, 'T18': T18, 'T20': T20, 'T30': T30, 'T31': T31, 'T7': T7, 'T8': T8, 'T9': T9, 'T15': T15, 'T16': T16, 'T1': T1, 'T2': T2, 'T3': T3, 'T4': T4, 'T5': T5, 'T6': T6}
+class T42(ast.NodeTransformer):
+  """`if c: ...; return/raise/continue/break  else: B`  ->  `if c: ...; return` followed by B (else after a jump removed)"""
+  def _block(self, stmts):
+    out = []
+    for st in stmts:
+      if isinstance(st, ast.If) and st.orelse and st.body and isinstance(st.body[-1], (ast.Return, ast.Raise, ast.Continue, ast.Break)):
+        tail = st.orelse
+        st.orelse = []
+        out.append(st)
+        out.extend(self._block(tail))
+      else:
+        out.append(st)
+    return out
+  def generic_visit(self, node):
+    super().generic_visit(node)
+    for fld in ('body', 'orelse', 'finalbody'):
+      v = getattr(node, fld, None)
+      if isinstance(v, list) and v and isinstance(v[0], ast.stmt):
+        setattr(node, fld, self._block(v))
+    if isinstance(node, ast.ExceptHandler):
+      node.body = self._block(node.body)
+    return node
+
+
+class T43(ast.NodeTransformer):
+  """de Morgan: not (a or b) -> not a and not b;  not a and not b -> not (a or b)"""
+  def visit_UnaryOp(self, node):
+    self.generic_visit(node)
+    if isinstance(node.op, ast.Not) and isinstance(node.operand, ast.BoolOp):
+      op = ast.And() if isinstance(node.operand.op, ast.Or) else ast.Or()
+      return ast.BoolOp(op=op, values=[ast.UnaryOp(op=ast.Not(), operand=v) for v in node.operand.values])
+    return node
+  def visit_BoolOp(self, node):
+    if all(isinstance(v, ast.UnaryOp) and isinstance(v.op, ast.Not) for v in node.values):
+      op = ast.And() if isinstance(node.op, ast.Or) else ast.Or()
+      inner = ast.BoolOp(op=op, values=[self.visit(v.operand) for v in node.values])
+      return ast.UnaryOp(op=ast.Not(), operand=inner)
+    self.generic_visit(node)
+    return node
+
+
+class T44(ast.NodeTransformer):
+  """set([..]) -> {..} / set comprehension; dict([(k, v) for ..]) -> dict comprehension; list(x for ..) -> [x for ..]"""
+  def visit_Call(self, node):
+    self.generic_visit(node)
+    if isinstance(node.func, ast.Name) and len(node.args) == 1 and not node.keywords:
+      a = node.args[0]
+      if node.func.id == 'set' and isinstance(a, ast.ListComp):
+        return ast.SetComp(elt=a.elt, generators=a.generators)
+      if node.func.id == 'set' and isinstance(a, (ast.List, ast.Tuple)) and a.elts:
+        return ast.Set(elts=a.elts)
+      if node.func.id == 'list' and isinstance(a, ast.GeneratorExp):
+        return ast.ListComp(elt=a.elt, generators=a.generators)
+      if node.func.id == 'dict' and isinstance(a, (ast.ListComp, ast.GeneratorExp)) and isinstance(a.elt, ast.Tuple) and len(a.elt.elts) == 2:
+        return ast.DictComp(key=a.elt.elts[0], value=a.elt.elts[1], generators=a.generators)
+    return node
+
+
+class T45(ast.NodeTransformer):
+  """'..%s..' % x  ->  f-string, in raise statements and logging calls only"""
+  def _fs(self, node):
+    if isinstance(node, ast.BinOp) and isinstance(node.op, ast.Mod) and isinstance(node.left, ast.Constant) and isinstance(node.left.value, str):
+      fmt = node.left.value
+      args = node.right.elts if isinstance(node.right, ast.Tuple) else [node.right]
+      import re
+      parts = re.split(r'(%[sdri])', fmt)
+      if sum(1 for p_ in parts if re.fullmatch(r'%[sdri]', p_)) != len(args) or '%' in ''.join(p_ for p_ in parts if not re.fullmatch(r'%[sdri]', p_)):
+        return node
+      vals, k = [], 0
+      for p_ in parts:
+        if re.fullmatch(r'%[sdri]', p_):
+          conv = 114 if p_ == '%r' else -1
+          vals.append(ast.FormattedValue(value=args[k], conversion=conv, format_spec=None))
+          k += 1
+        elif p_:
+          vals.append(ast.Constant(value=p_))
+      return ast.JoinedStr(values=vals)
+    return node
+  def visit_Raise(self, node):
+    if node.exc is not None and isinstance(node.exc, ast.Call):
+      node.exc.args = [self._fs(a) for a in node.exc.args]
+    return node
+  def visit_Call(self, node):
+    self.generic_visit(node)
+    if isinstance(node.func, ast.Attribute) and node.func.attr in ('debug', 'info', 'warning', 'warn', 'error', 'exception', 'critical'):
+      node.args = [self._fs(a) for a in node.args]
+    return node
+
+
+TS = {'T42': T42, 'T43': T43, 'T44': T44, 'T45': T45, 'T41': T41, 'T33': T33, 'T39': T39, 'T40': T40, 'T17': T17, 'T18': T18, 'T20': T20, 'T30': T30, 'T31': T31, 'T7': T7, 'T8': T8, 'T9': T9, 'T15': T15, 'T16': T16, 'T1': T1, 'T2': T2, 'T3': T3, 'T4': T4, 'T5': T5, 'T6': T6}
 
 
 def main():
